@@ -1015,6 +1015,15 @@ def probe_frontmatter_body() -> tuple[bool, str]:
         except Exception as e:  # noqa: BLE001
             bad.append(f"U+{ord(ch):04X}: {type(e).__name__}: {e}")
             continue
+        # a literal zone holding the character, behind frontmatter: content byte for byte
+        zdoc = f"===Z===\nK::\n```\nl1{ch}l2\n```\n===END===\n"
+        try:
+            z0 = parse_with_warnings(zdoc)[0].sections[0].value.content
+            z1 = parse_with_warnings(fm + zdoc)[0].sections[0].value.content
+            if z0 != z1 or z1 != f"l1{ch}l2":
+                bad.append(f"U+{ord(ch):04X}: zone content behind frontmatter {z1!r}, without {z0!r}")
+        except Exception as e:  # noqa: BLE001
+            bad.append(f"U+{ord(ch):04X} in a zone: {type(e).__name__}: {e}")
         v0, v1 = d0.sections[0].value, d1.sections[0].value
         if v0 != v1:
             bad.append(f"U+{ord(ch):04X}: the value reads as {v1!r} behind frontmatter, {v0!r} without")
